@@ -25,6 +25,8 @@ CHECKS = [['load', 'C12/reload-raises'], ['export', 'C12/reload-not-equal'],
 def draw_model(r, max_ops=6, p_gen=0.65):
   if r.random() < p_gen:
     return {'kind': 'gen', 'seed': r.randrange(1 << 30), 'max_ops': r.randint(1, max_ops)}
+  if r.random() < 0.06:
+    return {'kind': 'corpus', 'name': r.choice(modelgen.ERROR_CORPUS)}
   return {'kind': 'corpus', 'name': r.choice(modelgen.CORPUS)}
 
 
